@@ -9,10 +9,14 @@
 //               ','-joined descriptors of every id-carrying position, position = index in the table ("id-slot"):
 //                 m:<M> e:<M> u:<U> ui:<U>:<index> i:<I> c:<C> cr:<C> v:<V> r:<R> tv:<R> rv:<R>
 //                 mp:<V1>:<V2> cn:<V1>:<V2> ma:<C>:<k>          (<X> = script slot numbers; k = 0: id on <math>, 1: on <apply>)
+//                 ov:<V>   a variable OUTSIDE the model (of another model, of a removed component, without parent) that is the
+//                          other end of an equivalence: its own id is not an id of the model, the position only names the object
 //   structure   for the model driver only
 //   ops         ';'-joined annotator / edit commands on one libcellml::Annotator object:
 //                 S [k]                   setModel(model k)            (several models are handed to ONE annotator in turn)
 //                 X                       the last reference to the model the annotator holds is dropped
+//                 R <k> <alt> <script command>   a structural edit of model k through script.hpp (removecomponent_p, takecomponent_i,
+//                                         removevariable_p, ...); <alt> tells the model driver which structure the model has now
 //                 E <idslot> s<hex> [k]   on model k: the public setter of that position (setId, setEncapsulationId, setUnitId,
 //                                         setTestValueId, setResetValueId, setEquivalenceMappingId,
 //                                         setEquivalenceConnectionId, setMath for ids inside MathML)
@@ -24,7 +28,7 @@
 //                 u s<hex> | n s<hex> | d | D            isUnique | itemCount | ids() | duplicateIds()
 //                 t <class> s<hex>        component(id) / connection(id) / model(id) / importSource(id) / reset(id) /
 //                                         units(id) / unitsItem(id) / variable(id) (and their synonyms by variant)
-//                 P                       Printer::printModel(model, true): ids of all elements, purity of the model
+//                 P                       printModel(model, true) on the ONE Printer object of the case: ids of all elements, purity
 //   snapshot = the id read back through the public getter of every position of the slot table ("independent
 //   traversal": it is driven by the table the generator wrote, not by the library).
 // Items are printed as <model>.<kind>:<idslot>:<a>:<b>: the model whose OBJECT was returned (pointer identity against the
@@ -60,6 +64,7 @@ struct Case
     ModelPtr model;                        // models[cur]
     size_t cur = 0;
     AnnotatorPtr annotator;
+    PrinterPtr printer = Printer::create(); // one printer for the whole history
     std::map<size_t, std::vector<std::string>> mathIds; // component script slot -> ids on <math>, <apply>
 
     ComponentPtr comp(size_t s) { return in.get<Component>(s); }
@@ -225,7 +230,7 @@ struct Case
         if (k == "i") return import(d.a)->id();
         if (k == "c") return comp(d.a)->id();
         if (k == "cr") return comp(d.a)->encapsulationId();
-        if (k == "v") return var(d.a)->id();
+        if (k == "v" || k == "ov") return var(d.a)->id();
         if (k == "r") return reset(d.a)->id();
         if (k == "tv") return reset(d.a)->testValueId();
         if (k == "rv") return reset(d.a)->resetValueId();
@@ -245,7 +250,7 @@ struct Case
         else if (k == "i") import(d.a)->setId(id);
         else if (k == "c") comp(d.a)->setId(id);
         else if (k == "cr") comp(d.a)->setEncapsulationId(id);
-        else if (k == "v") var(d.a)->setId(id);
+        else if (k == "v" || k == "ov") var(d.a)->setId(id);
         else if (k == "r") reset(d.a)->setId(id);
         else if (k == "tv") reset(d.a)->setTestValueId(id);
         else if (k == "rv") reset(d.a)->setResetValueId(id);
@@ -337,8 +342,8 @@ struct Case
             }
             long s1 = in.find(p->variable1());
             long s2 = in.find(p->variable2());
-            long a = slotOf("v", s1);
-            long b = slotOf("v", s2);
+            long a = slotOf("v", s1) >= 0 ? slotOf("v", s1) : slotOf("ov", s1);
+            long b = slotOf("v", s2) >= 0 ? slotOf("v", s2) : slotOf("ov", s2);
             long s = -1;
             bool isMap = it->type() == CellmlElementType::MAP_VARIABLES;
             for (size_t i = 0; i < table.size() && s < 0; ++i) {
@@ -457,6 +462,12 @@ struct Case
             }
             std::string k1 = objKey("v", in.find(p->variable1()));
             std::string k2 = objKey("v", in.find(p->variable2()));
+            if (k1[0] == '?') {
+                k1 = objKey("ov", in.find(p->variable1()));
+            }
+            if (k2[0] == '?') {
+                k2 = objKey("ov", in.find(p->variable2()));
+            }
             return k1 + "-" + k2.substr(k2.find(":") + 1);
         }
         return "?";
@@ -466,7 +477,6 @@ struct Case
     std::string printOp()
     {
         std::string before = dumpModel(model, false);
-        auto printer = Printer::create();
         std::string text = printer->printModel(model, true);
         std::string after = dumpModel(model, false);
         std::vector<std::string> ids;
@@ -652,6 +662,13 @@ static std::string runCase(const std::string &line)
                 cs.in.exec("release " + std::to_string(slot));
             }
             r = cs.annotator->hasModel() ? "STILL-ALIVE" : "-";
+        } else if (c == "R") {
+            std::string cmd;
+            for (size_t i = 3; i < w.size(); ++i) {
+                cmd += (i > 3 ? " " : "") + w[i];
+            }
+            std::string res = cs.in.exec(cmd);
+            r = (res.rfind("ERR(", 0) == 0 || res.rfind("THROW(", 0) == 0 || res == "false") ? "R-" + res : "-";
         } else if (c == "E") {
             size_t k = w.size() > 3 ? std::stoul(w[3]) : 0;
             cs.setId(cs.tables.at(k).at(std::stoul(w.at(1))), strArg(2));
